@@ -110,8 +110,14 @@ pub fn gen_topic_filter(rng: &mut Rng, sz: Sizes) -> TopicFilter {
                 }
             }
         }
-        if let Ok(f) = TopicFilter::try_from(s) {
-            return f;
+        // validity is decided by the independently written rule, never by the implementation under
+        // test: a valid filter it refuses must not silently drop out of the corpus
+        if crate::oracle::spec_filter(&s).is_none() {
+            continue;
+        }
+        match TopicFilter::try_from(s.clone()) {
+            Ok(f) => return f,
+            Err(e) => panic!("generator: the implementation refuses the valid topic filter {:?}: {:?}", s, e),
         }
     }
 }
